@@ -334,6 +334,9 @@ class C12Copy(Harness):
 
     def instances(self, tier):
         yield "copy-collection-adaptive", dict(kind="collection", empty=False, adaptive=True)
+        # an empty adaptive histogram created with align=False: the copy must grow exactly like its source
+        for how in ("copy", "copy_empty", "mul1"):
+            yield f"copy-unaligned-{how}", dict(kind="unaligned", empty=False, how=how)
         for kind in ("1d", "2d", "polar", "collection"):
             yield f"copy-{kind}", dict(kind=kind, empty=False)
             if kind != "collection":
@@ -347,6 +350,13 @@ class C12Copy(Harness):
     def drive(self, E, p, x):
         np = E.np
         k = p["kind"]
+        if k == "unaligned":
+            H1 = E.mod("physt.histogram1d").Histogram1D
+            FWB = E.mod("physt.binnings").FixedWidthBinning
+            h = H1(FWB(bin_width=2.0, bin_count=0, adaptive=True, align=False))
+            c = {"copy": lambda: h.copy(), "copy_empty": lambda: h.copy(include_frequencies=False), "mul1": lambda: h * 1}[p["how"]]()
+            r1, r2 = E.attempt(h.fill, x["v"]), E.attempt(c.fill, x["v"])
+            return {"unaligned": True, "fills": ["ok" if not isinstance(r, Raised) else r.name for r in (r1, r2)], "src": full(E, h), "der": full(E, c)}
         if k in ("1d", "collection"):
             H1 = E.mod("physt.histogram1d").Histogram1D
             St = E.mod("physt.statistics").Statistics
@@ -387,6 +397,12 @@ class C12Copy(Harness):
         yield "no_exception", obs.get("raised") is None
         if obs.get("raised") is not None:
             return
+        if obs.get("unaligned"):
+            yield "both_fills_accepted", obs["fills"] == ["ok", "ok"]
+            a, b = obs["src"], obs["der"]
+            yield "copy_grows_like_its_source", z3.And([cx.t(u) == cx.t(w) for u, w in zip(flat(a["bins"]), flat(b["bins"]))] + [z3.BoolVal(len(flat(a["bins"])) == len(flat(b["bins"])) and len(flat(a["freq"])) == len(flat(b["freq"])))]
+                                                       + [cx.eq(u, cx.t(w)) for u, w in zip(flat(a["freq"]), flat(b["freq"]))])
+            return
         if p["kind"] == "collection":
             yield "copy_equal", obs["eq"] is True
             yield "copy_distinct", obs["distinct"] is True and obs["name"] == "col"
@@ -399,6 +415,14 @@ class C12Copy(Harness):
             yield "copy_identical_snapshot", same_snapshot(cx, c, o)
             return
         yield "empty_contents", z3.And([cx.eq(v, 0) for v in flat(c["freq"]) + flat(c["err2"]) + flat(c["missed"])])
+        if "stats" in c:
+            # an empty copy starts with empty statistics (weight, sum, sum2 zero) - not the source's
+            yield "empty_statistics", z3.And([cx.eq(v, 0) for v in c["stats"][:3]])
+            if obs["fill"] == "ok" and p["kind"] == "1d":
+                st = obs["copy_after_fill"]["stats"]
+                v = cx.t(x["v"])
+                inside = z3.And(v >= 0, v <= 3)
+                yield "statistics_of_the_new_data_only", z3.Implies(inside, z3.And(cx.eq(st[2], 1), cx.eq(st[0], v), cx.eq(st[3], v), cx.eq(st[4], v)))
         yield "same_bins_meta", z3.And([cx.t(a) == cx.t(b) for a, b in zip(flat(c["bins"]), flat(o["bins"]))] + [z3.BoolVal(c["name"] == o["name"] and c["axis_names"] == o["axis_names"] and c["cls"] == o["cls"] and c["dtype"] == o["dtype"] and c["custom"] == o["custom"])])
         yield "fillable", obs["fill"] == "ok"
         yield "fill_counts_once", cx.t(zsum_leafs(cx, obs["copy_after_fill"]["freq"])) + zsum_leafs(cx, obs["copy_after_fill"]["missed"]) == 1 if obs["fill"] == "ok" else False
